@@ -325,20 +325,78 @@ fn handle(line: &str) -> String {
                 INFOS.with(|v| v.borrow_mut().clear());
                 let before_hist = hist.clone();
                 let before_pos = p;
+                let started = std::time::Instant::now();
                 let r = root::root(p, &mut hist, &mut tt, limit_of(ls), collect_info);
+                let ms = started.elapsed().as_millis();
                 let infos = INFOS.with(|v| v.borrow().join(";"));
                 outs.push(format!(
-                    "best={} infos=[{}] hist_same={}{}",
+                    "best={} infos=[{}] hist_same={}{} ms={}",
                     match r {
                         Ok(m) => mv_str(&m),
                         Err(_) => "0000".to_string(),
                     },
                     infos,
                     b01(hist == before_hist),
-                    if p == before_pos { "" } else { " POS-CHANGED" }
+                    if p == before_pos { "" } else { " POS-CHANGED" },
+                    ms
                 ));
             }
             outs.join(" || ")
+        }
+        "pos" => {
+            let frc = f[1] == "1";
+            let mut pos = Position::from_fen("startpos");
+            pos.is_frc = frc;
+            let mut hist = vec![pos.hash];
+            let mut stream = f[2].split_ascii_whitespace();
+            rawr::uci::position::position(&mut stream, &mut pos, &mut hist);
+            pos.is_frc = frc;
+            format!(
+                "{} keys={}",
+                dump_pos(&pos),
+                hist.iter().map(|h| h.to_string()).collect::<Vec<_>>().join(",")
+            )
+        }
+        "tt" => {
+            // entries are u64 (size 8); the TTEntry instantiation is exercised by the search commands
+            let ops: Vec<&str> = if f[2].is_empty() { vec![] } else { f[2].split(' ').collect() };
+            let mut t = Hashtable::<u64>::new(0);
+            let mut outs = vec![];
+            for op in ops {
+                let v: Vec<&str> = op.split(':').collect();
+                let r = catch_unwind(AssertUnwindSafe(|| match v[0] {
+                    "r" => {
+                        t.resize(v[1].parse().unwrap());
+                        "r".to_string()
+                    }
+                    "a" => {
+                        t.add(v[1].parse().unwrap(), &v[2].parse::<u64>().unwrap());
+                        "a".to_string()
+                    }
+                    "p" => t.poll(v[1].parse().unwrap()).to_string(),
+                    "c" => {
+                        t.clear();
+                        "c".to_string()
+                    }
+                    "h" => match t.hashfull() {
+                        Some(h) => h.to_string(),
+                        None => "-".to_string(),
+                    },
+                    "l" => t.len().to_string(),
+                    _ => panic!("tt op"),
+                }));
+                outs.push(match r {
+                    Ok(s) => s,
+                    Err(_) => "PANIC".to_string(),
+                });
+            }
+            let n = t.len();
+            let dump = if n <= 4096 {
+                (0..n).map(|i| t.poll(i as u64).to_string()).collect::<Vec<_>>().join(",")
+            } else {
+                "big".to_string()
+            };
+            format!("{} | {}", outs.join(" "), dump)
         }
         "ttsize" => format!("{} {}", std::mem::size_of::<TTEntry>(), Hashtable::<TTEntry>::new(1).len()),
         c => panic!("unknown command {}", c),
